@@ -15,10 +15,11 @@ RULE = ('Every (type, value, charset, icvn) of the bounded domain is evaluated b
         'fields up to length 9 and non-digits; every single character 0-255 (+ a few beyond) alone and embedded '
         'for AN/ID x {B,E} x {00401,00501}; non-string values. The thorough tier adds all 6-digit times, all '
         '5-digit strings, two-character AN/ID strings and a wider DT-12 product. '
-        'non-trivial = distinct (type, value, charset, icvn) tuples the reference rejects.')
+        'A second phase installs the same oracle as a record-only icontract postcondition on the real function (aliases re-bound, binding audit) and validates generated faulty documents, '
+        'so the arguments real validation passes in are observed too. non-trivial = distinct (type, value, charset, icvn) tuples the reference rejects.')
 ASSUMPTIONS = ['data types B (binary), empty and unknown type names are outside the property and not evaluated',
                'the reference languages are written from the property text: calendar via stdlib calendar.monthrange']
-REQUIRED_COUNTERS = ['evals:N', 'evals:R', 'evals:DT', 'evals:D8', 'evals:D6', 'evals:RD8', 'evals:TM', 'evals:AN', 'evals:ID',
+REQUIRED_COUNTERS = ['contract:evals', 'contract:documents', 'evals:N', 'evals:R', 'evals:DT', 'evals:D8', 'evals:D6', 'evals:RD8', 'evals:TM', 'evals:AN', 'evals:ID',
                      'ref-invalid', 'ref-valid']
 MIN_CASES = {'quick': 500000, 'thorough': 2000000}
 
@@ -197,6 +198,48 @@ def run(ctx):
     # shards partition the domain by value (ctx.mine), so per-shard distinct sets are disjoint and their sizes add up
     ctx.count('distinct-ref-invalid', len(seen))
     ctx.case(n=0, nt_disjoint=len(seen))
+    contract_phase(ctx)
+
+
+def contract_phase(ctx):
+    """The same oracle as a record-only icontract postcondition on the real IsValidDataType while whole documents are validated:
+    the values, types, charsets and versions are the ones real validation passes in (including the qualifier-selected formats)."""
+    from vlib import probes, pipeline, gen_doc, faults
+    import pyx12.validation
+    log = []
+    patched, orig = probes.install_type_contract(log)
+    left = probes.survivors(orig)
+    ctx.count('contract:aliases-rebound', len(patched))
+    if left:
+        raise RuntimeError('binding audit: undecorated IsValidDataType still bound at %r' % left)
+    entries = [e for e in gen_doc.index_entries() if e['file'] != '841.4010.XXXC.xml']
+    ndocs = 3 if ctx.quick else 25
+    for k in range(ndocs):
+        rng = ctx.sub_rng('c13c', ctx.shard, k)
+        e = entries[(ctx.shard * 7 + k) % len(entries)]
+        cs = 'BE'[k % 2]
+        try:
+            doc = gen_doc.gen_document(e, rng.randrange(1 << 30), fill=0.6, opt_prob=0.6, maxrep=1, charset=cs, rich=True, n_st=1)
+        except gen_doc.GenFailed:
+            continue
+        if len(doc.recs) > 400:
+            continue
+        for kind in ('bad_date', 'bad_time', 'bad_char', 'bad_code', 'too_long'):
+            f = faults.inject(rng, doc, kind=kind, tries=3)
+            if f is not None:
+                doc = f.doc
+        del log[:]
+        pipeline.validate(doc.text(), charset=cs, ack=False)
+        ctx.count('contract:documents')
+        for (v, dt, c2, icvn, got, exp, why) in log:
+            ctx.count('contract:evals')
+            if got is not True and got is not False:
+                ctx.viol('recogniser:contract:non-bool', 'IsValidDataType returned a non-boolean during document validation', {'type': dt, 'value': v, 'charset': c2, 'icvn': icvn}, {'got': repr(got)})
+            elif got != exp:
+                short = 'N' if dt[0] == 'N' else dt
+                key = 'recogniser:%s:accepts:%s' % (short, why) if got else 'recogniser:%s:rejects-valid' % short
+                ctx.viol(key, 'contract on IsValidDataType (document workload): result differs from the value language', {'type': dt, 'value': v, 'charset': c2, 'icvn': icvn},
+                         {'got': got, 'expected': exp, 'reason': why, 'map': e['file']})
 
 
 def replay(ctx, case):
